@@ -16,11 +16,12 @@ type uniVec struct {
 }
 
 type uniObs struct {
-	Ev    string      `json:"ev"`
-	Dims  [3]int      `json:"dims"`
-	Scene sceneVec    `json:"scene"`
-	Tris  []edgeTri   `json:"tris"`
-	Off   int         `json:"off"`
+	Ev      string    `json:"ev"`
+	Dims    [3]int    `json:"dims"`
+	Scene   sceneVec  `json:"scene"`
+	Tris    []edgeTri `json:"tris"`
+	Off     int       `json:"off"`
+	BadNorm int       `json:"badnorm"` // non-sliver triangles in a smooth region whose normal disagrees with the field gradient
 }
 
 // c06-replay: exact scenes through the real uniform marching cubes renderer.
@@ -38,6 +39,7 @@ func c06Replay(args []string) error {
 		ts := render.ToTriangles(f, render.NewMarchingCubesUniform(maxi(u.Dims[0], u.Dims[1], u.Dims[2])))
 		o := uniObs{Ev: "uni3", Dims: u.Dims, Scene: sc}
 		o.Tris, o.Off = projectTrisToEdges(ts, v3.Vec{}, 1)
+		o.BadNorm = badNormals(f, ts, 1)
 		emit(o)
 		n++
 	})
@@ -48,3 +50,35 @@ func c06Replay(args []string) error {
 }
 
 func init() { register("c06-replay", c06Replay) }
+
+// badNormals counts triangles (area > 1e-3 h^2) lying in a region where the field gradient is constant
+// (same direction at the three vertices and the centroid) whose normal does not agree with it.
+func badNormals(s sdf.SDF3, ts []*sdf.Triangle3, h float64) int {
+	bad := 0
+	e := 1e-4 * h
+	for _, t := range ts {
+		n := t[1].Sub(t[0]).Cross(t[2].Sub(t[0]))
+		if n.Length() < 2e-3*h*h {
+			continue
+		}
+		c := t[0].Add(t[1]).Add(t[2]).DivScalar(3)
+		g := grad(s, c, e)
+		if g.Length() == 0 {
+			continue
+		}
+		gn := g.Normalize()
+		smooth := true
+		for j := 0; j < 3; j++ {
+			// probe slightly towards the centroid so that a vertex on a crease does not straddle it
+			q := t[j].Add(c.Sub(t[j]).MulScalar(0.05))
+			gj := grad(s, q, e)
+			if gj.Length() == 0 || gj.Normalize().Dot(gn) < 0.999 {
+				smooth = false
+			}
+		}
+		if smooth && n.Normalize().Dot(gn) <= 0 {
+			bad++
+		}
+	}
+	return bad
+}
